@@ -1,6 +1,7 @@
 import XmppModel.Model.Jid
 import XmppModel.Lemmas.Jid
 import XmppModel.Lemmas.JidHeap
+import XmppModel.Lemmas.JidXml
 import XmppModel.Generated.C11
 /-!
 # C11 — JIDs are canonical
@@ -463,6 +464,86 @@ theorem C11_nonvacuous :
     (⟨[0x61, 0x62, 0x63], 1, 1⟩ : Jid).toString = [0x61, 0x40, 0x62, 0x2f, 0x63] ∧
     parse idNorm [0x61, 0x40, 0x62, 0x2f, 0x63] = .ok ⟨[0x61, 0x62, 0x63], 1, 1⟩ := by
   refine ⟨by rfl, by rfl, by rfl⟩
+
+/-! ### The XML encodings on the token level (incl. the zero JID and white space) -/
+
+open XmppModel.Xml in
+/-- **Element round trip on tokens**: the three tokens `MarshalXML` writes for an address
+`New` returned — start, character data, end — decode to that address: the tokens between the
+tags are exactly one `chars` token carrying the string form. -/
+theorem C11_elem_tokens_roundtrip {N : Norm} (g : N.Good) {l d r : Bytes} {j : Jid}
+    (h : new N l d r = .ok j) (name : Name) (attrs : List Attr) (toks : List Tok) (old : Jid)
+    (hm : marshalElemToks name attrs j = some toks) :
+    ∃ t, toks = [.start name attrs, .chars t, .stop name] ∧ strBytes t = j.toString ∧
+      unmarshalElemToks N old [.chars t] = (j, true) := by
+  unfold marshalElemToks at hm
+  rw [Option.map_eq_some_iff] at hm
+  obtain ⟨t, ht, rfl⟩ := hm
+  have hb := strBytes_of_bytesStr ht
+  obtain ⟨_, _, l', d', r', hd, _, _, _, _, _, rfl⟩ := new_ok_iff.mp h
+  obtain ⟨_, _, dne, _, _⟩ := normDomain_clean g hd
+  have hne : (mk l' d' r').toString ≠ [] := by rw [toString_mk]; exact assemble_ne_nil dne
+  have htne : t ≠ "" := by
+    intro e; rw [e, strBytes_empty] at hb; exact hne hb.symm
+  refine ⟨t, by simp [htne], hb, ?_⟩
+  have hcd : charDataOf 0 [Tok.chars t] = (mk l' d' r').toString := by
+    simp [charDataOf, hb]
+  unfold unmarshalElemToks
+  rw [hcd]
+  exact (C11_attr_elem_roundtrip g h old).2
+
+open XmppModel.Xml in
+/-- **Attribute round trip on tokens** -/
+theorem C11_attr_token_roundtrip {N : Norm} (g : N.Good) {l d r : Bytes} {j : Jid}
+    (h : new N l d r = .ok j) (name : Name) (a : Attr) (old : Jid)
+    (hm : marshalAttrTok name j = some a) :
+    a.name = name ∧ strBytes a.value = j.toString ∧ unmarshalAttrTok N old a = (j, true) := by
+  unfold marshalAttrTok at hm
+  rw [Option.map_eq_some_iff] at hm
+  obtain ⟨t, ht, rfl⟩ := hm
+  have hb := strBytes_of_bytesStr ht
+  refine ⟨rfl, hb, ?_⟩
+  unfold unmarshalAttrTok
+  rw [hb]
+  exact (C11_attr_elem_roundtrip g h old).1
+
+open XmppModel.Xml in
+/-- **The zero JID.**  `JID{}` is written as an empty attribute value, which decodes to "leave
+the receiver alone" — so into a fresh receiver it round-trips; as an element it is written
+`<j></j>` (no character data), and decoding *that* fails and leaves the receiver alone: the
+element encoding of the zero value does not round-trip.  (`N.idna [] = some []`:
+`ToUnicode("") = ""`, tested.) -/
+theorem C11_zero_jid_xml {N : Norm} (g : N.Good) (h0 : N.idna [] = some []) (name : Name)
+    (attrs : List Attr) (old : Jid) :
+    marshalAttrTok name zero = some ⟨name, ""⟩ ∧
+    unmarshalAttrTok N old ⟨name, ""⟩ = (old, true) ∧
+    unmarshalAttrTok N zero ⟨name, ""⟩ = (zero, true) ∧
+    marshalElemToks name attrs zero = some [.start name attrs, .stop name] ∧
+    unmarshalElemToks N old [] = (old, false) := by
+  refine ⟨rfl, by simp [unmarshalAttrTok, unmarshalAttr, strBytes_empty],
+    by simp [unmarshalAttrTok, unmarshalAttr, strBytes_empty], rfl, ?_⟩
+  unfold unmarshalElemToks unmarshalElem
+  have hcd : charDataOf 0 ([] : List Tok) = [] := rfl
+  rw [hcd]
+  cases hp : parse N [] with
+  | ok j => exact absurd hp (parse_nil_fails g h0 j)
+  | error e => rfl
+
+open XmppModel.Xml in
+/-- **White space and markup inside the element.**  `UnmarshalXML` parses exactly the
+character data that stands directly in the element: text and CDATA pieces are concatenated,
+comments and child elements (with everything inside them) are skipped, and **nothing is
+trimmed** — surrounding white space reaches `Parse` (which rejects it in a localpart or
+domainpart and keeps it in a resourcepart). -/
+theorem C11_elem_chardata_verbatim (N : Norm) (old : Jid) (a b c : String) (n : Name)
+    (as : List Attr) :
+    charDataOf 0 [.chars a, .comment c, .chars b] = strBytes a ++ strBytes b ∧
+    charDataOf 0 [.chars a, .start n as, .chars c, .stop n, .chars b] = strBytes a ++ strBytes b ∧
+    charDataOf 0 [.start n as, .chars c, .stop n] = [] ∧
+    unmarshalElemToks N old [.chars a] = unmarshalElem N old (strBytes a) ∧
+    (∀ inner, unmarshalElemToks N old inner = unmarshalElem N old (charDataOf 0 inner)) := by
+  refine ⟨by simp [charDataOf], by simp [charDataOf], by simp [charDataOf],
+    by simp [unmarshalElemToks, charDataOf], fun _ => rfl⟩
 
 /-! ### JIDs are values: no operation changes what another JID reports
 
